@@ -24,8 +24,9 @@ LEVEL_TEXT = ('Decides four clauses. C06-b: every value Request::read_payload re
               "t of the bytes received so far (a decision on a partial head depends on where the segments were cut). C06-e: the session loop's clear-before-each-read"
               ' clause and the exhaustiveness of the reset (C05-a/b) re-evaluated: whatever one read left in the Request is reset before the next read on every path,'
               ' also after a refused request. C06-c4: the receive loop is left for the parser only over an edge that establishes that the head is complete, that the '
-              'buffer is full, or that the read returned 0 bytes (not on a short read). These are necessary conditions of segmentation independence; the behaviour fo'
-              'r all segmentations is not decided.')
+              'buffer is full, or that the read returned 0 bytes (not on a short read). C06-f: from every edge on which the announced Content-Length is not 0, Reques'
+              't::read reaches no Ok(Some) without the read_payload call (an announced body is consumed with its request, whatever the method). These are necessary c'
+              'onditions of segmentation independence; the behaviour for all segmentations is not decided.')
 
 
 def run(ck, progs):
@@ -37,6 +38,7 @@ def run(ck, progs):
         ck.guard("C06-b PAIR payload extent", lambda: c06b(ck, prog))
         ck.guard("C06-c MUSTPASS head complete", lambda: c06c(ck, prog))
         ck.guard("C06-e MUSTPASS nothing carried over", lambda: c06e(ck, prog))
+        ck.guard("C06-f MUSTPASS announced body consumed", lambda: c06f(ck, prog))
     ck.config = None
 
 
@@ -369,3 +371,77 @@ def c06e(ck, prog):
             n += 1
             ck.ob(R, o["rule"].split(" ")[0] + ":" + o["key"], o["ok"], o["where"], o["detail"], how=o["how"], nontrivial=o.get("nontrivial", True))
     ck.floor(R, "reset clauses", n, 10)
+
+
+def c06f(ck, prog):
+    """A request that announces a body (Content-Length > 0) has that body consumed as part of the request, whatever its
+    method: otherwise body bytes that arrive in a later segment stay in the socket and are parsed as the next request, while
+    the same bytes in the head's segment are dropped -- the outcome depends on the segmentation. In Request::read, from every
+    edge on which the announced length is not 0, no `Ok(Some(()))` is reached without the read_payload call."""
+    R = "C06-f MUSTPASS announced body consumed"
+    f = prog.one(r"^ohkami::request::Request::read::\{closure#0\}$")
+    rps = [c for c in f.calls() if c.name == "read_payload"]
+    if len(rps) != 1:
+        raise AnchorLost("Request::read does not call read_payload exactly once (%d)" % len(rps))
+    rp = rps[0]
+    f = prog.inlined(f, 1, lambda caller, callee: callee.crate == caller.crate and callee.kind != "Closure" and not callee.coroutine and callee.name not in ("read_payload", "read") and not [ch for ch in prog.children(callee.key) if ch.coroutine] and "request" in callee.key and len(callee.blocks) < 60)      # a length-parsing helper (never an async fn)
+    rps = [c for c in f.calls() if c.name == "read_payload"]
+    rp = rps[0]
+    size_d = decision.describe_deep(f, rp.args[2], 3) if len(rp.args) > 2 else "?"
+    oks = {bb for bb, kind, payload in paths.ret_sites(f) if kind == "Ok" and "Some" in decision.describe_deep(f, payload[2][0], 3)}
+    # the decisions on the announced length: switches in front of read_payload whose discriminant is (a comparison of) the
+    # very value handed to it
+    sws = []
+    for sb in sorted(f.live_blocks()):
+        t = f.blocks[sb]["t"]
+        if t["k"] != "switch" or f.is_cleanup(sb) or not f.dominates(sb, rp.bb):
+            continue
+        d = decision.describe_deep(f, t["discr"], 4)
+        if size_d != "?" and (d == size_d or re.fullmatch(r"(Gt|Ge|Ne|Eq|Lt|Le)\((%s,const \d+|const \d+,%s)\)" % (re.escape(size_d), re.escape(size_d)), d)):
+            sws.append(sb)
+    bad = None
+    def _implies_nonzero(sb, lab):
+        t = f.blocks[sb]["t"]
+        d = decision.describe_deep(f, t["discr"], 4)
+        if d == size_d:
+            listed = [int(v) for v, _ in t["targets"]]
+            return (lab != "otherwise" and lab != 0) or (lab == "otherwise" and 0 in listed)
+        m = re.fullmatch(r"(Gt|Ge|Ne|Eq|Lt|Le)\((.*),(.*)\)", d)
+        if not m:
+            return False
+        op, a, b = m.group(1), m.group(2), m.group(3)
+        if a.startswith("const ") and b == size_d:
+            op = {"Gt": "Lt", "Ge": "Le", "Lt": "Gt", "Le": "Ge"}.get(op, op)
+            a, b = b, a
+        if not b.startswith("const "):
+            return False
+        k = int(b.split()[1])
+        truth = lab != 0
+        if op == "Gt":
+            return truth and k >= 0
+        if op == "Ge":
+            return truth and k >= 1
+        if op == "Ne":
+            return truth and k == 0
+        if op == "Eq":
+            return (not truth) and k == 0
+        if op == "Lt":
+            return (not truth) and k >= 1
+        if op == "Le":
+            return (not truth) and k >= 0
+        return False
+    for sb in sws:
+        for tb, lab in f.succ(sb):
+            if f.is_cleanup(tb) or not _implies_nonzero(sb, lab):
+                continue        # an edge that does not establish `the announced length is not 0`
+            if rp.bb not in f.reachable_from(tb):
+                continue        # the too-large refusal
+            if oks & f.reachable_from(tb, avoid=(rp.bb,)):
+                bad = (sb, tb)
+    if not sws and oks and not all(f.dominates(rp.bb, o) for o in oks):
+        # no decision on the length at all, yet some success answer bypasses read_payload
+        bad = (rp.bb, rp.bb)
+    ok = bad is None and bool(oks)
+    ck.ob(R, "nonzero-length:read_payload", ok, f.loc(f.blocks[bad[0]]["t"].get("sp")) if bad else f.loc(rp.sp),
+          "" if ok else "Request::read can answer Ok(Some) for a request that announced a body without consuming it (a path from `Content-Length != 0` around read_payload): body bytes arriving in a later segment are then parsed as the next request, the same bytes in the head's segment are dropped",
+          how="from the non-zero edges of the length decision, no Ok(Some) without read_payload")
